@@ -41,7 +41,8 @@ TRUSTED = {
     ("skip_bytes::{closure#0}", "explicit-panic", ""): "panic!(\"Read too much bytes\") guards the same allocator-capacity assumption; unreachable while with_capacity(n) gives exactly n",
     ("skip_bytes::{closure#0}", "Overflow:Add", ""): "bytes_counter += bytes_read: bounded by `bytes` (u32) under the same assumption",
     ("run::{closure#0}", "precondition:unwrap", ""): "Semaphore::acquire() fails only after close(), which the crate never calls (C17.R2 census)",
-    ("CacheImplDetails>::check_if_expired", "Overflow:Add", "timestamp"): "record.header.timestamp + ttl as u64: the timestamp is the server's own tick counter (seconds since start, stamped by MemoryStore::set) and ttl < 2^32 — the sum stays below 2^64 for 5*10^11 years of uptime",
+    # keyed by the operands, in whatever function of the store module the expiry sum is written (helper extraction moves it)
+    ("memory_store::store::", "Overflow:Add", ("header.timestamp", "header.time_to_live")): "record.header.timestamp + ttl as u64: the timestamp is the server's own tick counter (seconds since start, stamped by MemoryStore::set) and ttl < 2^32 — the sum stays below 2^64 for 5*10^11 years of uptime",
     ("BinaryHandler::get", "Overflow:Add", ""): "value.len() as u32 + 4 + key.len() as u32 overflows only for a stored value of 4 GiB - 4 or more; the item size limit is a u32 (at most 1024m per the CLI) and a single request cannot exceed it (append growth to 4 GiB is an advisory, not a request-path input)",
 }
 
@@ -241,7 +242,9 @@ def skip_discipline_holds(ctx):
 
 def trusted_reason(b, kind, descr_s, ctx=None):
     for (fn_suffix, k, frag), why in TRUSTED.items():
-        if b.path.endswith(fn_suffix) and kind == k and frag in descr_s and why != "n/a":
+        frags = frag if isinstance(frag, tuple) else (frag,)
+        where = (fn_suffix in b.path) if fn_suffix.endswith("::") else b.path.endswith(fn_suffix)
+        if where and kind == k and all(x in descr_s for x in frags) and why != "n/a":
             if fn_suffix.startswith("skip_bytes") and ctx is not None and not skip_discipline_holds(ctx):
                 return None  # the premise of the assumption is checked, and it does not hold
             return why
@@ -334,39 +337,59 @@ def operand_names(b, t):
 
 
 def r2(ctx):
-    rep = Report("C10.R2", "validators are exact in both directions (boundary tables)", floor=40)
+    rep = Report("C10.R2", "header validation is exact in both directions (boundary table, decided on the public decode); the codec's validator helpers, where they exist, agree", floor=30)
     f = ctx.facts
-    hv = f.one(CODEC + "::header_valid")
-    rep.analysed(hv)
+    d = f.one(DECODE)
+    rep.analysed(d)
     rep.exhaustive = True
     maxop = dispatch.command_values(ctx)["OpCodeMax"]
+    src = P("src")
+    # a fresh codec is given exactly one header whose body (100 bytes, within the limit) has not arrived: a well-formed
+    # header must make the decoder wait for more bytes, a malformed one must close the connection — whatever helper decides it
     for magic in (0x80, 0x81, 0x00, 0xFF):
         for op in (0x00, maxop - 1, maxop, 0xFF):
             for dt in (0, 1, 0xFF):
-                slf = dispatch.codec_self(op, header_fields={"magic": magic, "data_type": dt})
-                outs = set(tform(p.ret) for p in Interp(f).run(hv, [slf]))
-                want = 1 if (magic == 0x80 and op < 0x25 and dt == 0) else 0
+                def seeds(st, magic=magic, op=op, dt=dt):
+                    assume(st, {("len0", src): 1}, eq=24)
+                    assume(st, {("bufread", src, 0, 1): 1}, eq=magic)
+                    assume(st, {("bufread", src, 1, 1): 1}, eq=op)
+                    assume(st, {("bufread", src, 5, 1): 1}, eq=dt)
+                    assume(st, {("bufread", src, 2, 2): 1}, eq=0)
+                    assume(st, {("bufread", src, 4, 1): 1}, eq=0)
+                    assume(st, {("bufread", src, 8, 4): 1}, eq=100)
+                    assume(st, {F(P("self"), "item_size_limit"): 1}, lo=1000, hi=2**32 - 1)
+
+                I = Interp(f, models=BUF_MODELS)
+                outs = set(dispatch.outcome_of(p.ret) for p in I.run(d, [dispatch.codec_self(None, state="None"), src], seeds=seeds))
+                if I.panic_paths:
+                    outs.add("PANIC")
+                valid = magic == 0x80 and op < maxop and dt == 0
+                want = {"None"} if valid else {"Err"}
                 rep.evaluations += 1
-                rep.check(outs == {want}, "header_valid[magic=%#x,op=%#x,dt=%d]" % (magic, op, dt), "-> %s" % bool(want), "header_valid(magic=%#x, opcode=%#x, data_type=%d) = %s, must be %s (%s)" % (magic, op, dt, sorted(outs), bool(want), "a malformed header is executed" if not want else "a well-formed request is refused"), hv.loc())
-    rv = f.one(CODEC + "::request_valid")
-    rep.analysed(rv)
-    for extras in (0, 20, 21, 255):
-        for key in (0, 1, 250, 251, 65535):
-            for rel in (-1, 0, 1):
-                body = key + extras + rel
-                if body < 0:
-                    continue
-                for kr in (0, 1):
-                    slf = dispatch.codec_self(None, header_fields={"extras_length": extras, "key_length": key, "body_length": body})
-                    I = Interp(f)
-                    outs = set(tform(p.ret) for p in I.run(rv, [slf, P("src"), kr]))
-                    if I.panic_paths and key + extras > 65535:
-                        outs.add("panic")
-                    want = 1 if (extras <= 20 and key <= 250 and (not kr or key != 0) and body >= key + extras) else 0
-                    rep.evaluations += 1
-                    k = "request_valid[extras=%d,key=%d,body=key+extras%+d,required=%d]" % (extras, key, rel, kr)
-                    ok = outs == {want}
-                    rep.check(ok, k, "-> %s" % bool(want), "request_valid(extras=%d, key=%d, body=%d, key_required=%s) = %s, must be %s (%s)" % (extras, key, body, bool(kr), sorted(map(str, outs)), bool(want), "an invalid request is executed" if not want else "a valid request is refused"), rv.loc())
+                rep.check(outs == want, "header_valid[magic=%#x,op=%#x,dt=%d]" % (magic, op, dt), "-> %s" % ("waits for the body" if valid else "refused"), "a header with magic=%#x, opcode=%#x, data_type=%d gives %s, must be %s (%s)" % (magic, op, dt, sorted(outs), sorted(want), "a malformed header is accepted" if not valid else "a well-formed request is refused"), d.loc())
+    # the length validator, when the codec has one with the known shape (&self, &mut BytesMut, key_required) -> bool
+    rv = f.bodies.get(CODEC + "::request_valid")
+    if rv is not None and rv.arg_count == 3 and rv.local_ty(0) == "bool":
+        rep.analysed(rv)
+        for extras in (0, 20, 21, 255):
+            for key in (0, 1, 250, 251, 65535):
+                for rel in (-1, 0, 1):
+                    body = key + extras + rel
+                    if body < 0:
+                        continue
+                    for kr in (0, 1):
+                        slf = dispatch.codec_self(None, header_fields={"extras_length": extras, "key_length": key, "body_length": body})
+                        I = Interp(f)
+                        outs = set(tform(p.ret) for p in I.run(rv, [slf, P("src"), kr]))
+                        if I.panic_paths and key + extras > 65535:
+                            outs.add("panic")
+                        want = 1 if (extras <= 20 and key <= 250 and (not kr or key != 0) and body >= key + extras) else 0
+                        rep.evaluations += 1
+                        k = "request_valid[extras=%d,key=%d,body=key+extras%+d,required=%d]" % (extras, key, rel, kr)
+                        ok = outs == {want}
+                        rep.check(ok, k, "-> %s" % bool(want), "request_valid(extras=%d, key=%d, body=%d, key_required=%s) = %s, must be %s (%s)" % (extras, key, body, bool(kr), sorted(map(str, outs)), bool(want), "an invalid request is executed" if not want else "a valid request is refused"), rv.loc())
+    else:
+        rep.advise("no length validator of the known shape in the codec: the length rules are decided per opcode on decode (C10.R3)")
     return rep
 
 
@@ -376,7 +399,7 @@ EXTRAS_OF = {0x01: 8, 0x11: 8, 0x02: 8, 0x12: 8, 0x03: 8, 0x13: 8, 0x05: 20, 0x1
 
 def decode_outcomes(ctx, op, hdr):
     f = ctx.facts
-    b = f.one(CODEC + "::parse_request")
+    b = f.one(DECODE)
     I = Interp(f, models=BUF_MODELS)
 
     def seeds(st):
@@ -393,7 +416,7 @@ def decode_outcomes(ctx, op, hdr):
 def r3(ctx):
     rep = Report("C10.R3", "validated before built: per opcode, missing required key / key 251 / extras 21 / short body are refused; boundary values accepted", floor=100)
     f = ctx.facts
-    b = f.one(CODEC + "::parse_request")
+    b = f.one(DECODE)
     rep.exhaustive = True
     for op in sorted(dispatch.PROTOCOL):
         ex = EXTRAS_OF.get(op, 0)
